@@ -234,6 +234,8 @@ def pred_c14(ops, impl):
             return where + "unexpected outcome " + out[:80]
         if t[0] == "advance" and out != "ok":
             return where + "block update failed (%s)" % out
+        if t[0] == "rb" and out != "err":
+            return where + "a transaction ending in an impossible transfer returned " + out[:40]
         if ad is not None and ad.get("odd"):
             return where + "raw storage holds keys outside the known staking/distribution/bank slots: " + ad["odd"][:120]
         # ---- rejected operations change nothing
